@@ -1849,6 +1849,12 @@ pub fn server_message_classification() -> Value {
 			(r#"{"jsonrpc":"2.0","id":1,"method":"add","params":[1,2]}}"#, err(-32700, Value::Null)),
 			(r#"{"jsonrpc":"2.0","id":1,"method":"add","params":[1,2]}{"jsonrpc":"2.0","id":2,"method":"add","params":[1]}"#, err(-32700, Value::Null)),
 			(r#"{"jsonrpc":"2.0","id":1,"method":"add""#, err(-32700, Value::Null)),
+			// whitespace that is not JSON whitespace (form feed, vertical tab, NBSP) in front of a valid call: the text is not JSON
+			("\x0c{\"jsonrpc\":\"2.0\",\"id\":1,\"method\":\"add\",\"params\":[1,2]}", err(-32700, Value::Null)),
+			(" \n\x0c\t\x0c {\"jsonrpc\":\"2.0\",\"id\":1,\"method\":\"add\",\"params\":[1,2]}", err(-32700, Value::Null)),
+			("\x0b{\"jsonrpc\":\"2.0\",\"id\":1,\"method\":\"add\",\"params\":[1,2]}", err(-32700, Value::Null)),
+			("\x0c[{\"jsonrpc\":\"2.0\",\"id\":1,\"method\":\"add\",\"params\":[1,2]}]", err(-32700, Value::Null)),
+			("\u{a0}{\"jsonrpc\":\"2.0\",\"id\":1,\"method\":\"add\",\"params\":[1,2]}", err(-32700, Value::Null)),
 			// batches
 			(r#"[{"jsonrpc":"2.0","id":1,"method":"add","params":[1,2]},{"jsonrpc":"2.0","method":"add","params":[1]},{"jsonrpc":"2.0","id":9}]"#, json!([{"result":3,"id":1}, {"code":-32600,"id":9}])),
 			(r#"[{"jsonrpc":"2.0","method":"add","params":[1]},{"foo":"boo"}]"#, json!([{"code":-32600,"id":null}])),
